@@ -226,13 +226,21 @@ def construct(eng, cls, node, st):
         if cc is not None:
             # a constructor under contract: a fresh object, then __init__'s contract with self bound to it
             obj = eng.allocate(st, cls)
+            ctor_args = [eng.eval(a, st) for a in node.args]
             if node.keywords:
-                raise Unsupported("keyword arguments in constructor call of %s" % cls)
+                names = list(cc.params)[1 + len(ctor_args):]
+                kwv = {kw.arg: eng.eval(kw.value, st) for kw in node.keywords}
+                for n_ in names:
+                    if n_ not in kwv:
+                        raise Unsupported("constructor of %s: argument %s not given (defaults are not modelled)" % (cls, n_))
+                    ctor_args.append(kwv.pop(n_))
+                if kwv:
+                    raise Unsupported("constructor of %s: unknown keyword %s" % (cls, sorted(kwv)))
             if getattr(eng, "concrete", False):
                 obj = VRef(cls, z3.simplify(obj.ref))
-                concrete_call(eng, cc, [obj] + [eng.eval(a, st) for a in node.args], st, node)
+                concrete_call(eng, cc, [obj] + ctor_args, st, node)
                 return obj
-            eng.call_contract(cc, [obj] + [eng.eval(a, st) for a in node.args], st, node)
+            eng.call_contract(cc, [obj] + ctor_args, st, node)
             return obj
         raise Unsupported("constructor of %s not modelled" % cls)
     args = [eng.eval(a, st) for a in node.args]
@@ -676,6 +684,8 @@ def method_call(eng, recv, recv_node, name, node, st):
             return eng.ite(recv.dom[kz], val, dflt)
         if name in ("keys",):
             return VSet(recv.key, recv.dom)
+        if name == "items" and not args:
+            return VDictItems(recv)
     if isinstance(recv, VSet):
         if name == "add":
             _check_alias(eng, recv_node, st)
